@@ -2066,5 +2066,12 @@ def Op.CleanInstall : Op → Prop
 def SOp.CleanInstall : SOp → Prop
   | .op o => o.CleanInstall
   | .reload => True
+  | .cmd o => o.CleanInstall
+
+/-- An outside event (a process dying / changing pid behind the manager's back) — never inside a command. -/
+def SOp.isKill : SOp → Bool
+  | .op o => o.isKill
+  | .reload => false
+  | .cmd o => o.isKill
 
 end SafeNet.Lifecycle
